@@ -35,6 +35,11 @@ def run(ctx):
     cache_file(ctx, f, cfg)
     file_order(ctx, f, cfg)
     retention_order(ctx, f, cfg)
+    next_name(ctx, f, cfg)
+    cache_offset(ctx, f, cfg)
+    cache_validation(ctx, f, cfg)
+    undecodable_line(ctx, f, cfg)
+    roll_before_index(ctx, f, cfg)
     no_panic(ctx, f, cfg)
 
 
@@ -420,6 +425,139 @@ def retention_order(ctx, f, cfg):
         ctx.violation("C19.retention-order", "C19.retention-order|close_cur_and_new_file",
                       "retention prunes %s the new files are created but %s: files inside the retention limit are deleted (or the limit is exceeded)" % (
                           "before" if before else "after", "does not leave room for them" if room is False else "already leaves room for one"), cl.loc(), config=cfg)
+
+
+def next_name(ctx, f, cfg):
+    """The number of the next file of a day comes from the number in the LAST existing file name (+1), not from how many files are
+    left: after retention removed a file of that day the count names the current file again and File::create truncates it."""
+    b = f.one("DefaultMetricLogWriter::next_file_name_of_time")
+    if not ctx.floor("C19.next-name", "next_file_name_of_time", 1 if b else 0, 1):
+        return
+    sl = Slicer(f, b)
+    fmt_atoms = set()
+    for bb, t in b.calls():
+        if callee_def(t).endswith(("new_display", "new_debug")) or callee_def(t).rsplit("::", 1)[-1] in ("new_display", "new_debug"):
+            at = sl.of_operand(t["args"][0])
+            if any(x.startswith("call:") and x.endswith("::len") or x.rsplit("::", 1)[-1] == "parse" for x in at if x.startswith("call:")) or "op:Add" in at or "op:AddWithOverflow" in at:
+                fmt_atoms |= at
+    parsed = any(x.startswith("call:") and x.rsplit("::", 1)[-1] in ("parse", "from_str") for x in fmt_atoms)
+    plus1 = "const:1" in fmt_atoms and any(x in fmt_atoms for x in ("op:Add", "op:AddWithOverflow"))
+    ok = parsed and plus1
+    ctx.instance("C19.next-name", b.path, {"number_parsed_from_a_file_name": parsed, "incremented": plus1}, "next number = number parsed from the last file name + 1", ok, cfg)
+    if not ok:
+        ctx.violation("C19.next-name", "C19.next-name|next_file_name_of_time", "the next file number is not derived from the number of the last existing file: once retention removed a file of the day the name of a live file is produced and File::create truncates it", b.loc(), config=cfg)
+
+
+def cache_offset(ctx, f, cfg):
+    """The index offset kept in the searcher's cache belongs to ONE file.  search_offset_and_read hands the same start offset to every
+    file it tries; that is sound only as long as the offset is the constant Start(0).  A non-constant store into cur_offset_in_idx
+    therefore requires the per-file call to use it for the cached file only."""
+    stores = []
+    for p, b in f.bodies.items():
+        if "log::metric" not in p:
+            continue
+        sl = None
+        for bi, blk in enumerate(b.blocks):
+            if blk["cleanup"]:
+                continue
+            for st in blk["stmts"]:
+                if st["k"] == "assign" and any(pj.endswith("FilePosition.cur_offset_in_idx") for pj in st["lhs"]["p"]):
+                    sl = sl or Slicer(f, b)
+                    rv = st["rv"]
+                    at = set()
+                    for k in ("op",):
+                        if isinstance(rv.get(k), dict):
+                            at |= sl.of_operand(rv[k])
+                    for o in rv.get("ops", []) or []:
+                        at |= sl.of_operand(o)
+                    const_only = not any(x.startswith(("call:", "param:", "field:", "op:")) for x in at)
+                    stores.append((p, bi, const_only))
+    sr = f.one("DefaultMetricSearcher::search_offset_and_read")
+    per_file_invariant = None
+    if sr is not None:
+        sl = Slicer(f, sr)
+        for bb, t in sr.calls():
+            if callee_def(t).endswith("find_offset_to_start") and sr.in_loop(bb):
+                at = sl.of_operand(t["args"][-1])
+                # does the offset argument depend on the loop's own iteration (index / file) ?
+                per_file_invariant = not any(x.startswith("call:") and x.endswith(("Iterator::next", "::next")) for x in at) and "op:Eq" not in at
+    nonconst = [(p, b) for p, b, c in stores if not c]
+    ok = not (nonconst and per_file_invariant)
+    ctx.instance("C19.cache-offset", "FilePosition.cur_offset_in_idx", {"stores": len(stores), "non_constant_stores": [p for p, _ in nonconst], "same_offset_handed_to_every_file": per_file_invariant},
+                 "a per-file index offset is not applied to other files", ok, cfg)
+    if not ok:
+        ctx.violation("C19.cache-offset", "C19.cache-offset|" + ",".join(sorted(p.rsplit("::", 1)[-1] for p, _ in nonconst)),
+                      "the cached index offset of one file is handed to every file the search tries: the first seconds of a later file are skipped", f.bodies[nonconst[0][0]].loc(nonconst[0][1]), config=cfg)
+
+
+def cache_validation(ctx, f, cfg):
+    """A cached position that cannot be validated (its index file was removed by the writer's retention, or is torn) is a cache miss:
+    the error of is_position_in_time_for must not be propagated out of the search."""
+    b = f.one("DefaultMetricSearcher::get_offset_start_and_file_idx")
+    if not ctx.floor("C19.cache-validation", "get_offset_start_and_file_idx", 1 if b else 0, 1):
+        return
+    sites = [(bb, t) for bb, t in b.calls() if callee_def(t).endswith("is_position_in_time_for")]
+    prop = []
+    for bb, t in sites:
+        dest = t["dest"]["l"]
+        for b2, t2 in b.calls():
+            if callee_is(t2, "Try::branch") and op_place(t2["args"][0]) and op_place(t2["args"][0])["l"] == dest:
+                prop.append(b.loc(b2))
+    ok = bool(sites) and not prop
+    ctx.instance("C19.cache-validation", b.path, {"validation_sites": len(sites), "error_propagated_at": prop}, "a failed validation is a miss, not a failed search", ok, cfg)
+    if not ok:
+        ctx.violation("C19.cache-validation", "C19.cache-validation|get_offset_start_and_file_idx",
+                      "an error while validating the cached position (index file removed by retention, torn entry) fails every later search of a long-lived searcher instead of falling back to a full search", b.loc(), config=cfg)
+
+
+def undecodable_line(ctx, f, cfg):
+    """A torn tail can end inside a multi-byte character: the read error for text that is not valid UTF-8 is skipped like a line that
+    does not parse; propagating it makes the whole search fail although every complete line is intact."""
+    rs = [b for p, b in f.bodies.items() if "DefaultMetricLogReader::read_metrics" in p and b.kind == "AssocFn" and "bool)" in b.ret_ty]
+    for b in rs:
+        sl = Slicer(f, b)
+        reads = []
+        for bb, t in b.calls():
+            nm = callee_resolved(t) or callee_def(t)
+            if callee_def(t).endswith("::read_line") or nm.endswith("::read_line") or ("Lines" in nm and nm.endswith("::next")):
+                reads.append((bb, t))
+        bad = []
+        for bb, t in reads:
+            dest = t["dest"]["l"]
+            # is the (possibly wrapped) result handed to `?` without an ErrorKind test in between?
+            for b2, t2 in b.calls():
+                if callee_is(t2, "Try::branch"):
+                    at = sl.of_operand(t2["args"][0])
+                    if ("lid:%d" % dest) in at or any(x.startswith("call:") and (x.endswith("::read_line") or ("Lines" in x and x.endswith("::next"))) for x in at):
+                        bad.append(b.loc(b2))
+        kinds = any(callee_def(t).endswith("Error::kind") for _, t in b.calls())
+        ok = bool(reads) and not bad and kinds
+        ctx.instance("C19.torn-line/undecodable", b.path, {"line_reads": len(reads), "read_error_propagated_with_?": bad, "tests_error_kind": kinds}, "undecodable text is skipped (ErrorKind::InvalidData), other read errors are returned", ok, cfg)
+        if not ok:
+            ctx.violation("C19.torn-line", "C19.torn-line|undecodable|" + b.path.rsplit("::", 1)[-1],
+                          "%s propagates the read error of a line that is not valid UTF-8 (a tail torn inside a multi-byte character): the search fails instead of losing that one line" % b.path.rsplit("::", 1)[-1], b.loc(), config=cfg)
+
+
+def roll_before_index(ctx, f, cfg):
+    """The index entry of a second is written to the index of the file its lines go to: a roll-over by date happens BEFORE the index
+    entry of the new day's first second is written (otherwise that entry lands in the old day's index and the second cannot be found
+    once the old file is gone)."""
+    ws = [b for b in f.impl_methods("MetricLogWriter", "write") if "DefaultMetricLogWriter" in (b.impl_self or "")]
+    if not ws:
+        return
+    b = ws[0]
+    idx = [bb for bb, t in b.calls() if callee_def(t).endswith("write_index")]
+    items = [bb for bb, t in b.calls() if callee_def(t).endswith("write_items_and_flush")]
+    rolls = [bb for bb, t in b.calls() if callee_def(t).endswith(("roll_to_next_file",))]
+    late = []
+    for i in idx:
+        # a roll reachable from the index write before the lines are written
+        reach = b.reachable(b.succs(i), avoid=items)
+        late += [b.loc(r) for r in rolls if r in reach]
+    ok = bool(idx) and bool(items) and not late
+    ctx.instance("C19.write-order/roll-before-index", b.path, {"index_sites": len(idx), "roll_sites": len(rolls), "roll_after_index_before_lines": late}, "no roll-over between a second's index entry and its lines", ok, cfg)
+    if not ok:
+        ctx.violation("C19.write-order", "C19.write-order|roll-after-index", "a roll-over can happen between writing a second's index entry and its lines: the entry stays in the old file's index and the new file has none for that second", b.loc(), config=cfg)
 
 
 def no_panic(ctx, f, cfg):
